@@ -339,3 +339,129 @@ Proof.
       intuition discriminate.
   - vm_compute. repeat split; reflexivity.
 Qed.
+
+(*BEGIN GenAgreeDimension_C19*)
+(* ------------------------------------------------------------------------------------ *)
+(* SOURCE TEXT of _ElementIdShim.  Gen/DimensionSrc.v is regenerated on every check from src/cr/cube/dimension.py
+   by harness/translate/x_dimension.py (shallow translation over the Python-semantics combinators of Base/PyList.v +
+   Base/PyDict.v + Model/PyDimension.v; the embedding is by VALUE: an in-place change of an object the function did
+   not create is the outcome MutatesCaller, which equals no model result).  For ALL dimension dicts whose
+   type.elements reads as the model's [adim] ([adim_of] / [item_of]: Proofs/GenAgreeDimensionShim.v) and all
+   identifiers on which the model's restricted int(str) agrees with Python's ([int_agrees]), _subvar_aliases /
+   _raw_element_ids / _subvar_ids / _has_mr_insertion / translate_element_id / _replaced_order_element_ids ARE
+   [aliases] / [raw_ids] / [subvar_ids] / [d_mr_ins] / [translate] / [replaced_ids] of Model/Shim.v; [conv] reads a
+   result of the model in the exception monad of the generated text. *)
+From CC Require Proofs.GenAgreeDimensionShim Proofs.GenAgreeDimensionShimDict Proofs.GenAgreeDimensionShimDt Model.Shim.
+Section GenAgreeDimension_C19.   (* scopes and imports below end with the section *)
+Import Coq.Lists.List Coq.ZArith.ZArith Coq.Strings.String Coq.Bool.Bool CC.Base.XQ CC.Base.Ident CC.Base.PyList
+       CC.Base.PyDict CC.Model.DimType CC.Model.PyDimension CC.Gen.DimensionSrc CC.Proofs.GenAgreeDimensionLib
+       CC.Proofs.GenAgreeDimensionSubtotal CC.Proofs.GenAgreeDimensionShim CC.Proofs.GenAgreeDimensionShimDict
+       CC.Proofs.GenAgreeDimensionShimDt.
+Import Coq.Lists.List.ListNotations.
+Local Close Scope Q_scope.
+Local Open Scope Z_scope.
+
+Theorem C19_gen_dim__ElementIdShim__subvar_aliases :
+  match src__ElementIdShim__subvar_aliases with
+  | Some f => forall t dd tr d, adim_of t dd = Some d ->
+      f (mkPyShim t (JDict dd) tr) = Ok (map jv_of_ident (Shim.aliases d))
+  | None => True end.
+Proof. exact gen__ElementIdShim__subvar_aliases. Qed.
+Print Assumptions C19_gen_dim__ElementIdShim__subvar_aliases.
+
+Theorem C19_gen_dim__ElementIdShim__raw_element_ids :
+  match src__ElementIdShim__raw_element_ids with
+  | Some f => forall t dd tr d, adim_of t dd = Some d ->
+      f (mkPyShim t (JDict dd) tr) = Ok (map jv_of_ident (Shim.raw_ids d))
+  | None => True end.
+Proof. exact gen__ElementIdShim__raw_element_ids. Qed.
+Print Assumptions C19_gen_dim__ElementIdShim__raw_element_ids.
+
+Theorem C19_gen_dim__ElementIdShim__subvar_ids :
+  match src__ElementIdShim__subvar_ids with
+  | Some f => forall t dd tr d, adim_of t dd = Some d ->
+      f (mkPyShim t (JDict dd) tr) = Ok (map jv_of_ident (Shim.subvar_ids d))
+  | None => True end.
+Proof. exact gen__ElementIdShim__subvar_ids. Qed.
+Print Assumptions C19_gen_dim__ElementIdShim__subvar_ids.
+
+Theorem C19_gen_dim__ElementIdShim__has_mr_insertion :
+  match src__ElementIdShim__has_mr_insertion with
+  | Some f => forall t dd tr d, adim_of t dd = Some d ->
+      f (mkPyShim t (JDict dd) tr) = Ok (Shim.d_mr_ins d)
+  | None => True end.
+Proof. exact gen__ElementIdShim__has_mr_insertion. Qed.
+Print Assumptions C19_gen_dim__ElementIdShim__has_mr_insertion.
+
+Theorem C19_gen_dim__ElementIdShim_translate_element_id_array :
+  match src__ElementIdShim_translate_element_id with
+  | Some f => forall t dd tr d x, dt_in t [TCaSubvar; TMrSubvar; TNumArr] = true ->
+      adim_of t dd = Some d -> int_agrees x ->
+      f (mkPyShim t (JDict dd) tr) (jv_of_ident x) = conv jv_of_ident (Shim.translate d x)
+  | None => True end.
+Proof. exact gen__ElementIdShim_translate_element_id_array. Qed.
+Print Assumptions C19_gen_dim__ElementIdShim_translate_element_id_array.
+
+Theorem C19_gen_dim__ElementIdShim_translate_element_id_other :
+  match src__ElementIdShim_translate_element_id with
+  | Some f => forall t dd tr v, dt_in t [TCaSubvar; TMrSubvar; TNumArr; TDatetime] = false ->
+      f (mkPyShim t dd tr) v = Ok v
+  | None => True end.
+Proof. exact gen__ElementIdShim_translate_element_id_other. Qed.
+Print Assumptions C19_gen_dim__ElementIdShim_translate_element_id_other.
+
+Theorem C19_gen_dim__ElementIdShim__replaced_order_element_ids :
+  match src__ElementIdShim__replaced_order_element_ids with
+  | Some f => forall t dd tr d l, dt_in t [TCaSubvar; TMrSubvar; TNumArr] = true ->
+      adim_of t dd = Some d -> Forall int_agrees l ->
+      f (mkPyShim t (JDict dd) tr) (JList (map jv_of_ident l))
+      = conv (fun r => JList (map jv_of_ident r)) (Shim.replaced_ids d l)
+  | None => True end.
+Proof. exact gen__ElementIdShim__replaced_order_element_ids. Qed.
+Print Assumptions C19_gen_dim__ElementIdShim__replaced_order_element_ids.
+
+Theorem C19_gen_dim__ElementIdShim__replaced_element_transforms :
+  match src__ElementIdShim__replaced_element_transforms with
+  | Some f => forall t dd tr d pay e, dt_in t [TCaSubvar; TMrSubvar; TNumArr] = true ->
+      adim_of t dd = Some d -> pay_ok pay -> NoDup (map fst e) -> Forall int_agrees (map fst e) ->
+      f (mkPyShim t (JDict dd) tr) (JDict (jd_of_edict pay e))
+      = conv (fun e' => JDict (jd_of_edict pay e')) (Shim.replaced_elements d e)
+  | None => True end.
+Proof. exact gen__ElementIdShim__replaced_element_transforms. Qed.
+Print Assumptions C19_gen_dim__ElementIdShim__replaced_element_transforms.
+
+Theorem C19_gen_dim__ElementIdShim_shimmed_dimension_transforms_dict :
+  match src__ElementIdShim_shimmed_dimension_transforms_dict with
+  | Some f => forall t dd tr d pay x, dt_in t [TCaSubvar; TMrSubvar; TNumArr] = true ->
+      adim_of t dd = Some d -> pay_ok pay -> xf_rel pay tr x -> xf_wf x ->
+      shim_agrees pay (f (mkPyShim t (JDict dd) (JDict tr))) (Shim.shim_xf d x)
+  | None => True end.
+Proof. exact gen__ElementIdShim_shimmed_dimension_transforms_dict. Qed.
+Print Assumptions C19_gen_dim__ElementIdShim_shimmed_dimension_transforms_dict.
+
+Theorem C19_gen_dim__ElementIdShim_shimmed_dimension_transforms_dict_other :
+  match src__ElementIdShim_shimmed_dimension_transforms_dict with
+  | Some f => forall t dd tr, dt_in t [TCaSubvar; TMrSubvar; TNumArr; TDatetime] = false ->
+      f (mkPyShim t dd tr) = Ok tr
+  | None => True end.
+Proof. exact gen__ElementIdShim_shimmed_dimension_transforms_dict_other. Qed.
+Print Assumptions C19_gen_dim__ElementIdShim_shimmed_dimension_transforms_dict_other.
+
+Theorem C19_gen_dim__ElementIdShim__element_values_dict :
+  match src__ElementIdShim__element_values_dict with
+  | Some f => forall t dd tr d, dtdim_of dd = Some d ->
+      f (mkPyShim t (JDict dd) tr) = Ok (py_dict_of_pairs jv_eqb (map jv_pair (dt_pairs d)))
+  | None => True end.
+Proof. exact gen__ElementIdShim__element_values_dict. Qed.
+Print Assumptions C19_gen_dim__ElementIdShim__element_values_dict.
+
+Theorem C19_gen_dim__ElementIdShim_translate_element_id_datetime :
+  match src__ElementIdShim_translate_element_id with
+  | Some f => forall dd tr d x, dtdim_of dd = Some d -> dt_agrees x ->
+      f (mkPyShim TDatetime (JDict dd) tr) (jv_of_ident x) = Ok (jv_of_tval (Shim.dt_translate d x))
+  | None => True end.
+Proof. exact gen__ElementIdShim_translate_element_id_datetime. Qed.
+Print Assumptions C19_gen_dim__ElementIdShim_translate_element_id_datetime.
+
+End GenAgreeDimension_C19.
+(*END GenAgreeDimension_C19*)
